@@ -259,15 +259,25 @@ CHECKS["C15"] = dict(
          "measurement, not proof: 1/3/5 RawNodes over MemoryStorage are driven through generated schedules (ticks, campaigns, proposals, arbitrary "
          "delivery/loss/duplication/reordering, partitions, crash/restart, compaction forcing MsgSnap, one-entry-per-message paging); after every event the "
          "node's full projection must equal RS.handle's result exactly and every emitted message must be a response the handler computed or valid leader "
-         "traffic (RS.leaderOutB, proved sound); an accepted trace is an RS.Run (RS.driver_step_is_run). STAGE D, FIRST STEP (quorum / configuration layer only): "
+         "traffic (RS.leaderOutB, proved sound); an accepted trace is an RS.Run (RS.driver_step_is_run). STAGE D (membership changes): (1) the quorum / configuration layer - "
          "an executable model of raft/quorum (MajorityConfig, JointConfig: CommittedIndex, VoteResult), tracker.Config and confchange.Changer (Simple, EnterJoint, "
          "LeaveJoint, Restore) with kernel-checked RQJ.* theorems - quorum intersection for one config, across a single voter change and across a joint config, "
          "CommittedIndex / VoteResult specifications, the Changer keeps its invariants and fails only for the reasons it names, Simple changes at most one voter, "
          "LeaveJoint after EnterJoint yields the requested config - tied to the code by recomputing random JointConfig inputs and random Changer operation sequences "
-         "(Config and ProgressMap compared after every operation).",
-    note="Level: proof for the model (Stages A-C), correspondence (lock-step, generated schedules) for handler = code; for membership changes (Stage D) only the "
-         "quorum / confchange layer is proved and tied - election safety and commitment ACROSS a configuration change are not theorems about the protocol model "
-         "(fixed voter set), and add/remove/promote are judged by the safety predicates on the implementation only; ReadIndex and leader transfer are outside both. Trusted: Lean kernel (propext, Classical.choice, Quot.sound), the Lean interpreter running the driver, the Go "
+         "(Config and ProgressMap compared after every operation). (2) the abstract protocol over GUARDED quorum decisions (RSQ.*: the five theorems need of a "
+         "deciding set only that it is linked to the earlier decisions, no cardinalities), hence over every static quorum system with pairwise intersecting "
+         "quorums - strict majority (the RS.C15_* statements re-derived by instantiation), majority of a subset of voters with non-voting learners, a fixed joint "
+         "configuration (RSQ.Q_*, majority_safe, voters_safe, joint_safe; overlap_needed). (3) the protocol with configurations that change through log entries and "
+         "take effect at APPLY time, as etcd does it (Raft/RSC.lean: config = fold of Changer.Simple over the conf-change entries of the node's own log up to its "
+         "applied index; tallies and commit decisions under the deciding node's current voters; pendingConfIndex proposal gate; hup gate; learners; restarts that "
+         "fall back to an earlier applied index): RSC.C15_conf_holds - election safety, log matching, leader completeness, state-machine safety, committed prefix "
+         "never rewritten, for every cluster size, initial configuration, schedule and sequence of single-voter changes; RSC.conf_one_pending.",
+    note="Level: proof for the model (Stages A-C and, at the level of the abstract protocol, Stage D with apply-time single-voter changes), correspondence (lock-step, "
+         "generated schedules) for handler = code with a fixed voter set. Membership changes: the quorum / confchange layer is proved and tied; the protocol-level theorem "
+         "(RSC) is about a model written from raft.go / raftexample of which only the configuration part is tied to RawNode (CF / GT / HP lines of the member-* schedules: "
+         "config after each applied conf change, the pendingConfIndex proposal gate, the campaign gate - compared by the lock-step driver); otherwise add/remove/promote schedules are judged by "
+         "the safety predicates on the implementation only; joint configurations entered through the log (EnterJoint/LeaveJoint/AutoLeave) are not in the protocol model; "
+         "ReadIndex and leader transfer are outside both. Trusted: Lean kernel (propext, Classical.choice, Quot.sound), the Lean interpreter running the driver, the Go "
          "harness's projection/index shift/event classification, MemoryStorage as the persistence layer (the WAL is C16's subject). Flow control is abstracted "
          "(any true log slice is accepted), timers are not modelled (a tick is classified by its effect).",
 )
